@@ -258,6 +258,32 @@ func addMovFallbackEncodings() {
 				},
 			},
 		},
+		// MOV m16, Sreg (8C /r)
+		InstructionForm{
+			Operands: &[]Operand{
+				{Type: "m16", Input: Bool(false), Output: Bool(true)},
+				{Type: "sreg", Input: Bool(true), Output: Bool(false)},
+			},
+			Encodings: []Encoding{
+				{
+					Opcode: Opcode{Byte: "8C"},
+					ModRM:  &Modrm{Mode: "#0", Reg: "#1", Rm: "#0"},
+				},
+			},
+		},
+		// MOV Sreg, m16 (8E /r)
+		InstructionForm{
+			Operands: &[]Operand{
+				{Type: "sreg", Input: Bool(false), Output: Bool(true)},
+				{Type: "m16", Input: Bool(true), Output: Bool(false)},
+			},
+			Encodings: []Encoding{
+				{
+					Opcode: Opcode{Byte: "8E"},
+					ModRM:  &Modrm{Mode: "#1", Reg: "#0", Rm: "#1"},
+				},
+			},
+		},
 		// Add MOV r32, CR0 (0F 20 /r)
 		InstructionForm{
 			Operands: &[]Operand{
